@@ -145,7 +145,12 @@ pub fn gen_chain(rng: &mut Rng, max_exchanges: usize, body_max: usize) -> Chain 
             body,
             close_data,
             extra_interim: 0,
+        unsolicited_100: 0,
         };
+        let mut ex = ex;
+        if !matches!(ex.handshake, Handshake::Late100(_) | Handshake::Refused) && rng.chance(1, 10) {
+            ex.unsolicited_100 = rng.usize_in(1, 2);
+        }
         let (bytes, truth) = match ex.render() {
             Some(v) => v,
             None => continue,
@@ -216,6 +221,9 @@ fn random_case(rng: &mut Rng, schedules: usize, rec: &mut Rec) {
     rec.cov(&format!("chain-of-{}", chain.exchanges.len()));
     for (ex, truth, _) in &chain.exchanges {
         rec.cov(&format!("framing/{}/{}", truth.rule, truth.terminal));
+        if ex.unsolicited_100 > 0 {
+            rec.cov("unsolicited-100");
+        }
         rec.cov(&format!("handshake/{:?}", std::mem::discriminant(&ex.handshake)).replace("Discriminant", "").as_str());
         rec.cov(&format!("request/{}/{}", if ex.cfg.sends_body() { if ex.cfg.declared_len().is_some() { "sized-body" } else { "chunked-body" } } else { "no-body" }, ex.cfg.ver.token()));
     }
@@ -332,7 +340,7 @@ impl Property for P {
     fn floors(&self, _tier: Tier) -> Vec<(String, u64)> {
         [
             "chain-of-1", "chain-of-2", "chain-of-3", "framing/chunked/*", "framing/length/*", "framing/close/Cleanup", "framing/HEAD/*", "framing/redirect-without-framing/Redirect", "request/sized-body/*", "request/chunked-body/*",
-            "request/no-body/HTTP/1.0", "single-cut", "double-cut", "schedule/small-payload-profiles", "schedule/large-payload-profiles", "hook:dechunk:Trailer->Ending", "hook:tick:write_chunk",
+            "request/no-body/HTTP/1.0", "single-cut", "double-cut", "unsolicited-100", "schedule/small-payload-profiles", "schedule/large-payload-profiles", "hook:dechunk:Trailer->Ending", "hook:tick:write_chunk",
         ]
         .iter()
         .map(|k| (k.to_string(), 20))
